@@ -82,6 +82,7 @@ type HarnessConfig struct {
 	FloatMode    string          // "fp" or "real"
 	StopAtFirst  bool
 	MaxAlloc     int64 // allocation obligation bound (elements); 0 = off
+	AllocCut     bool  // continue past a symbolic-size allocation with one representative size
 }
 
 // HarnessReport aggregates exploration of one harness function.
@@ -326,6 +327,21 @@ func (i *interpreter) branch(c *Term) bool {
 		return take(true, i.feasible(i.ts.Not(c)))
 	}
 	return take(false, false) // PC is feasible, so the other side must be
+}
+
+// preferNoFork reports whether c is feasible, recording the answer as a
+// decision (so replays agree) without exploring the other side.
+func (i *interpreter) preferNoFork(c *Term) bool {
+	p := i.path
+	if len(p.decs) < len(p.prefix) {
+		d := p.prefix[len(p.decs)]
+		p.decs = append(p.decs, d)
+		return d.Taken
+	}
+	i.flushAsserts()
+	ok := i.underModel(c) == 1 || i.feasible(c)
+	p.decs = append(p.decs, decision{Taken: ok})
+	return ok
 }
 
 // pick returns a concrete value that t can take under the path condition.
